@@ -117,7 +117,7 @@ fn check_select(mask: u32, ord: usize, lock: usize) -> Option<Witness> {
     verdict(format!("select mask={mask} ord={ord} lock={lock}"), &e, s.to_string(MysqlQueryBuilder), s.to_string(PostgresQueryBuilder))
 }
 
-/// INSERT: shape 0 = one row, 1 = two rows, 2 = INSERT .. SELECT, 3 = default values; conflict 0..=6; returning 0 none, 1 column, 2 all
+/// INSERT: shape 0 = one row, 1 = two rows, 2 = INSERT .. SELECT, 3 = default values; conflict 0..=8; returning 0 none, 1 column, 2 all
 fn check_insert(shape: usize, conflict: usize, returning: usize, with: bool) -> Option<Witness> {
     let mut i = Query::insert();
     let mut e = Exp::default();
@@ -129,6 +129,9 @@ fn check_insert(shape: usize, conflict: usize, returning: usize, with: bool) -> 
         4 => { i.on_conflict(OnConflict::column(a("a")).value(a("b"), Expr::val(7)).to_owned()); }
         5 => { i.on_conflict(OnConflict::new().do_nothing().to_owned()); }
         6 => { i.on_conflict(OnConflict::column(a("a")).do_nothing_on([a("a")]).to_owned()); }
+        // the same upsert as 3 through the other spellings of the filter builders
+        7 => { i.on_conflict(OnConflict::columns([a("a"), a("b")]).target_and_where_option(Some(Expr::col(a("a")).gt(0))).update_column(a("b")).action_and_where_option(Some(Expr::col(a("b")).lt(5))).to_owned()); }
+        8 => { i.on_conflict(OnConflict::columns([a("a"), a("b")]).target_cond_where(Cond::all().add(Expr::col(a("a")).gt(0))).update_column(a("b")).action_cond_where(Cond::all().add(Expr::col(a("b")).lt(5))).target_and_where_option(None).action_and_where_option(None).to_owned()); }
         _ => {}
     }
     i.into_table(a("t"));
@@ -151,7 +154,7 @@ fn check_insert(shape: usize, conflict: usize, returning: usize, with: bool) -> 
     match conflict {
         1 => e.dev("mysql-on-duplicate-key-ignore", (" ON DUPLICATE KEY UPDATE `a` = `a`", " ON DUPLICATE KEY IGNORE"), (" ON CONFLICT (\"a\") DO NOTHING", " ON CONFLICT (\"a\") DO NOTHING")),
         2 => e.both(" ON DUPLICATE KEY UPDATE `a` = VALUES(`a`), `b` = VALUES(`b`)", " ON CONFLICT (\"a\") DO UPDATE SET \"a\" = \"excluded\".\"a\", \"b\" = \"excluded\".\"b\""),
-        3 => e.both(" ON DUPLICATE KEY UPDATE `b` = VALUES(`b`)", " ON CONFLICT (\"a\", \"b\") WHERE \"a\" > 0 DO UPDATE SET \"b\" = \"excluded\".\"b\" WHERE \"b\" < 5"),
+        3 | 7 | 8 => e.both(" ON DUPLICATE KEY UPDATE `b` = VALUES(`b`)", " ON CONFLICT (\"a\", \"b\") WHERE \"a\" > 0 DO UPDATE SET \"b\" = \"excluded\".\"b\" WHERE \"b\" < 5"),
         4 => e.both(" ON DUPLICATE KEY UPDATE `b` = 7", " ON CONFLICT (\"a\") DO UPDATE SET \"b\" = 7"),
         5 => e.dev("mysql-on-duplicate-key-ignore", (" ON DUPLICATE KEY UPDATE `a` = `a`", " ON DUPLICATE KEY IGNORE"), (" ON CONFLICT DO NOTHING", " ON CONFLICT DO NOTHING")),
         // do_nothing_on(keys): the MySQL spelling of "do nothing" is a no-op assignment of the key columns
@@ -299,7 +302,7 @@ pub fn search(_obl: &str) -> Vec<Witness> {
     for mask in 0..32u32 { run!(check_delete(mask)); }
     for mask in 0..8u32 { run!(check_with(mask)); }
     for k in 0..5usize { run!(check_misc(k)); }
-    for shape in 0..4usize { for conflict in 0..7usize { for returning in 0..3usize { for with in [false, true] { run!(check_insert(shape, conflict, returning, with)); } } } }
+    for shape in 0..4usize { for conflict in 0..9usize { for returning in 0..3usize { for with in [false, true] { run!(check_insert(shape, conflict, returning, with)); } } } }
     // ORDER BY item kinds x NULLS forms and lock forms, alone and with every other clause present
     for ord in 0..9usize { for lock in 0..4usize { for mask in [1 << 10, (1 << 10) | (1 << 13), (1 << SEL_BITS) - 1] { run!(check_select(mask, ord, lock)); } } }
     // every subset of the 14 SELECT clauses
